@@ -37,7 +37,7 @@ class Dt1Table:
         return M
 
 
-def run_dt1(rep, tier, invariants=("ColfilterOK", "ColdfiltOK", "ColifiltOK"), label="MC_DTCWT1", **over):
+def run_dt1(rep, tier, invariants=("ColfilterOK", "Colfilter0OK", "ColdfiltOK", "ColifiltOK"), label="MC_DTCWT1", **over):
     c = dict(RSet=models.rng(2, 40 if tier == "quick" else 96), L1Set={3, 5, 7, 9, 13, 19},
              QSet={4, 6, 10, 14, 16, 18} if tier == "quick" else {4, 6, 10, 14, 16, 18, 32},
              Shard=0, NShards=1, Emit=True, PRMaxR=24 if tier == "quick" else 48)
@@ -64,9 +64,9 @@ def real_op(kind, r, L, hp, axis="col"):
     for j in range(L):
         e = dwtlib.ind(L, j)
         z = np.zeros(L)
-        if kind == "colfilter":
+        if kind in ("colfilter", "colfilter0"):
             f = dl.colfilter if axis == "col" else dl.rowfilter
-            y = f(X, _prep(e))
+            y = f(X, _prep(e)) if kind == "colfilter" else f(X, _prep(e), mode="zero")
             outs = [(y, None)]
         else:
             f = {"coldfilt": (dl.coldfilt, dl.rowdfilt), "colifilt": (dl.colifilt, dl.rowifilt)}[kind][0 if axis == "col" else 1]
@@ -86,6 +86,15 @@ def real_op(kind, r, L, hp, axis="col"):
 def numpy_op(kind, r, L, hp):
     from dtcwt.numpy import lowlevel as nl
     X = np.eye(r)
+    if kind == "colfilter0":
+        # no reference implementation has this mode: 'valid' convolution of the zero-extended columns (NumPy)
+        m = L // 2
+        A = np.zeros((r + 2 * m - L + 1, L, r))
+        Xp = np.pad(X, ((m, m), (0, 0)))
+        for j in range(L):
+            for n in range(r):
+                A[:, j, n] = np.convolve(Xp[:, n], dwtlib.ind(L, j), mode="valid")
+        return A, np.zeros_like(A)
     if kind == "colfilter":
         A = np.zeros((r + 2 * (L // 2) - L + 1, L, r))
         for j in range(L):
